@@ -100,7 +100,7 @@ pub fn check(a: &Analysis, aux: &mut Aux, t: &mut Tally) -> Vec<Violation> {
                         v.push(Violation {
                             prop: "C10",
                             rule: "valid-request-not-served".into(),
-                            key: format!("not-served:{}:{}", s.name, why),
+                            key: if why.starts_with("shadowed") { format!("shadow:{}:{}", s.name, why) } else { format!("not-served:{}:{}", s.name, why) },
                             step: idx,
                             detail: format!("complete valid request whose leading bytes complete {} was not answered by that responder [{}]", s.name, why),
                         });
@@ -197,7 +197,7 @@ pub fn check(a: &Analysis, aux: &mut Aux, t: &mut Tally) -> Vec<Violation> {
                         v.push(Violation {
                             prop: "C10",
                             rule: "tcp-identification".into(),
-                            key: format!("tcp-identified-as-{}-expected:{}", got, why),
+                            key: if why.contains(":shadowed@") && got == 0 { format!("shadow:{}", why) } else { format!("tcp-identified-as-{}-expected:{}", got, why) },
                             step: a.steps[sg.si].idx,
                             detail: format!(
                                 "after segment {} (stream prefix of {} bytes: {}..) the flow is identified as protocol {} but the reference matcher says {} ({})",
@@ -205,6 +205,125 @@ pub fn check(a: &Analysis, aux: &mut Aux, t: &mut Tally) -> Vec<Violation> {
                             ),
                         });
                         break;
+                    }
+                }
+            }
+        }
+    }
+    // ---- matcher walks: step the node's compiled matcher byte by byte (guarded probe) along
+    // seeded prefixes that follow one signature and borrow other signatures' literals at its
+    // wildcard positions, and compare every step with the reference decision
+    {
+        let mut x = aux.pick ^ 0x9e37_79b9_7f4a_7c15;
+        let mut next = move || {
+            x ^= x << 13;
+            x ^= x >> 7;
+            x ^= x << 17;
+            x
+        };
+        let walks = aux.samples.min(6);
+        let nonce = aux.nonce.clone();
+        let clock = a.hist.start_ms;
+        for _ in 0..walks {
+            let k = (next() % sigs.len() as u64) as usize;
+            let target = &sigs[k];
+            let leave_at = if next() % 3 == 0 { (next() % (target.pat.len() as u64 + 1)) as usize } else { usize::MAX };
+            let mut prefix: Vec<u8> = Vec::new();
+            for (j, p) in target.pat.iter().enumerate() {
+                if j == leave_at {
+                    prefix.push(next() as u8);
+                    continue;
+                }
+                match p {
+                    Some(b) => prefix.push(*b),
+                    None => {
+                        // wildcard: a literal some other signature has at this position, '*', or random
+                        let lits: Vec<u8> = sigs.iter().filter_map(|o| o.pat.get(j).copied().flatten()).collect();
+                        let b = match next() % 4 {
+                            0 if !lits.is_empty() => lits[(next() % lits.len() as u64) as usize],
+                            1 => b'*',
+                            _ => next() as u8,
+                        };
+                        prefix.push(b);
+                    }
+                }
+            }
+            // a few bytes beyond the signature
+            for _ in 0..(next() % 4) {
+                prefix.push(next() as u8);
+            }
+            let node = match aux.exec.ensure(cfg, clock, &nonce) {
+                Ok(n) => n,
+                Err(e) => {
+                    aux.harness_error = Some(format!("{:?}", e));
+                    return v;
+                }
+            };
+            let mut state = 0u64;
+            let mut decided = false;
+            for i in 0..prefix.len() {
+                let (id, ns) = match node.probe_step(state, Some(prefix[i])) {
+                    Ok(r) => r,
+                    Err(_) => break,
+                };
+                state = ns;
+                let want = match sig::decide(&sigs, &prefix[..i + 1], false) {
+                    Decision::Match { sig: k2, at } if at == i + 1 => Some((sig::proto_id(&sigs[k2]), k2)),
+                    Decision::Ambiguous => {
+                        t.any("two-signatures-complete-together");
+                        decided = true;
+                        break;
+                    }
+                    _ => None,
+                };
+                let got = if id == u64::MAX { 0 } else { id };
+                let w = want.map(|x| x.0).unwrap_or(0);
+                t.judged(if w == 0 { Verdict::Silent } else { Verdict::Reply }, format!("walk|{}|pos{}|want{}", target.name, i.min(28), w));
+                if got != w {
+                    let (key, name) = match want {
+                        Some((_, k2)) => match sig::shadow_explanation(&sigs, k2, &prefix[..i + 1]) {
+                            Some((pos, _, other)) => (format!("shadow:{}:shadowed@{}<-{}", sigs[k2].name, pos, other.split(':').next().unwrap_or(other)), sigs[k2].name),
+                            None => (format!("walk-miss:{}", sigs[k2].name), sigs[k2].name),
+                        },
+                        None => (format!("walk-false-match:id{}", got), "none"),
+                    };
+                    v.push(Violation {
+                        prop: "C10",
+                        rule: "matcher-walk".into(),
+                        key,
+                        step: 0,
+                        detail: format!("stepping the compiled matcher over {} gives protocol {} after byte {}, the reference matcher says {} ({})", hex(&prefix[..i + 1]), got, i, w, name),
+                    });
+                    decided = true;
+                    break;
+                }
+                if w != 0 {
+                    decided = true;
+                    break;
+                }
+            }
+            if !decided {
+                // end of datagram: end-anchored signatures
+                if let Ok((id, _)) = node.probe_step(state, None) {
+                    let got = if id == u64::MAX { 0 } else { id };
+                    match sig::decide(&sigs, &prefix, true) {
+                        Decision::Ambiguous => t.any("two-signatures-complete-together"),
+                        d => {
+                            let w = match &d {
+                                Decision::Match { sig: k2, at } if *at == prefix.len() && sigs[*k2].end_anchored => sig::proto_id(&sigs[*k2]),
+                                _ => 0,
+                            };
+                            t.judged(if w == 0 { Verdict::Silent } else { Verdict::Reply }, format!("walk-end|{}|want{}", target.name, w));
+                            if got != w {
+                                v.push(Violation {
+                                    prop: "C10",
+                                    rule: "matcher-walk".into(),
+                                    key: format!("walk-end:{}:got{}:want{}", target.name, got, w),
+                                    step: 0,
+                                    detail: format!("at end of datagram {} the compiled matcher says {}, the reference matcher says {}", hex(&prefix), got, w),
+                                });
+                            }
+                        }
                     }
                 }
             }
